@@ -25,9 +25,28 @@ class Numberer:
         return [self.n(o) for o in lst]
 
 
+class Names:
+    """texture / material names -> numbers (by exact spelling); str.casefold as a table on those numbers"""
+    def __init__(self):
+        self.ids, self.classes = {}, {}
+
+    def n(self, s):
+        if s not in self.ids:
+            self.ids[s] = len(self.ids) + 1
+        return self.ids[s]
+
+    def fold_table(self):
+        out = []
+        for s, i in self.ids.items():
+            c = self.classes.setdefault(s.casefold(), 1000000 + len(self.classes))
+            out.append([i, c])
+        return out
+
+
 def install(bsp, cfg):
     from srctools.bsp import BSP, BSP_LUMPS, VisLeaf
     N = Numberer()
+    names = Names()
     log = []
     layout = W.CONFIG_BY_NAME[cfg][4]
     vit, chaos = cfg == 'vitamin', cfg == 'chaos'
@@ -67,6 +86,22 @@ def install(bsp, cfg):
                                'b': [bound(l.mins.x), bound(l.mins.y), bound(l.mins.z), bound(l.maxes.x), bound(l.maxes.y), bound(l.maxes.z)],
                                'faces': N.ns(l.faces), 'brushes': N.ns(l.brushes), 'water': l.water_id, 'ambient': list(l._ambient),
                                'minDist': l.min_water_dist} for l in data]}
+        if lump is BSP_LUMPS.PRIMITIVES and not vit:
+            return {'op': 'x_prims', 'layout': layout,
+                    'prims': [{'typ': int(p.is_tristrip), 'indices': list(p.indexed_verts),
+                               'verts': [[W.f32bits(v.x), W.f32bits(v.y), W.f32bits(v.z)] for v in p.verts]} for p in data]}
+        if lump is BSP_LUMPS.TEXINFO:
+            tds = {}
+            for info in data:
+                t = info._info
+                tds[N.n(t)] = {'mat': names.n(t.mat), 'r': [W.f32bits(t.reflectivity.x), W.f32bits(t.reflectivity.y), W.f32bits(t.reflectivity.z)],
+                               'w': t.width, 'h': t.height}
+            tex = [names.n(x) for x in self.textures]
+            return {'op': 'x_texinfo', 'layout': layout, 'vitamin': vit, 'textures': tex,
+                    'fold': names.fold_table(), 'tdv': [[k, v] for k, v in tds.items()],
+                    'infos': [{'f': [W.f32bits(x) for x in (*i.s_off, i.s_shift, *i.t_off, i.t_shift, *i.lightmap_s_off, i.lightmap_s_shift,
+                                                             *i.lightmap_t_off, i.lightmap_t_shift)],
+                               'flags': i.flags.value, 'td': N.n(i._info)} for i in data]}
         if lump is BSP_LUMPS.NODES:
             nd, todo = {}, list(data)
             while todo:
@@ -101,6 +136,10 @@ def install(bsp, cfg):
         if req['op'] == 'x_leafs':
             return {'leafs': list(out), 'leaffaces': L('LEAFFACES'), 'leafbrushes': L('LEAFBRUSHES'), 'mindist': L('LEAFMINDISTTOWATER'),
                     'tabs': {'faces': N.ns(self.faces), 'brushes': N.ns(self.brushes)}}
+        if req['op'] == 'x_prims':
+            return {'prims': list(out), 'indices': L('PRIMINDICES'), 'verts': L('PRIMVERTS')}
+        if req['op'] == 'x_texinfo':
+            return {'texinfo': list(out), 'texdata': L('TEXDATA'), 'textures': [names.n(x) for x in self.textures]}
         if req['op'] == 'x_nodes':
             return {'bytes': list(out), 'nodes': N.ns(data),
                     'tabs': {'planes': N.ns(self.planes), 'leafs': N.ns(self.visleafs), 'faces': N.ns(self.faces)}}
